@@ -54,6 +54,8 @@ PALETTES = [
     [0, 0, 0, 0, 4, -4],                     # sparse: all-zero rows/columns
     [1, 2, 3, 4, 5, 6, 7, -1, -2, -3],       # no zeros
     [0, 7, -7, 1000, -1000, 32767, -32768, 2 ** 40, -(2 ** 40)],   # wide magnitudes
+    [0, 2 ** 53, 2 ** 53 + 1, -(2 ** 53 + 2), 2 ** 53 + 3, 1, -(2 ** 53)],   # neighbours beyond float64's exact range
+    [2 ** 62, 2 ** 62 + 1, -(2 ** 62 - 1), 0, 3, 2 ** 61],         # near the int64 limit (weights stay small)
 ]
 
 def gen_values(rng, n, pal=None):
